@@ -56,19 +56,23 @@ def concrete_tables(aut, ex):
     return E, S, goals, holds, truth
 
 
-def replay_member(shape, moore, plus_one, values, objective='streett'):
+def replay_member(shape, moore, plus_one, values, objective='streett', resolve=False):
     """Real solver on one member vs. independent explicit solver. No z3."""
     import omega.games.gr1 as gr1
     from vlib import bdd2smt, family, xplay
     aut, params = family.build(shape, moore, plus_one)
     concrete_member(aut, {p: bool(values[p]) for p in params})
+    def solve():
+        if objective == 'streett':
+            return gr1.solve_streett_game(aut)[0]
+        return gr1.solve_rabin_game(aut)[0][-1]
+    z = solve()
+    if resolve:
+        aut.varlist['sys'] = list(aut.varlist['env']) + list(aut.varlist['sys'])
+        aut.varlist['env'] = []
+        z = solve()
     ex = family.Explicit(aut, bdd2smt.Exporter(aut.bdd))
     E, S, goals, holds, truth = concrete_tables(aut, ex)
-    if objective == 'streett':
-        z, _, _ = gr1.solve_streett_game(aut)
-    else:
-        zk, _, _ = gr1.solve_rabin_game(aut)
-        z = zk[-1]
     want = xplay.solve(ex.X, ex.Y, lambda s, a, b: E[s, a, b], lambda s, a, b: S[s, a, b],
                        goals, holds, moore, plus_one, objective)
     diffs = []
@@ -83,17 +87,23 @@ def _describe(values, params):
     return ''.join('1' if values[p] else '0' for p in params)
 
 
-def family_region(shape, moore, plus_one, objective='streett', state_idx=None):
+def family_region(shape, moore, plus_one, objective='streett', state_idx=None, resolve=False):
     import z3
     import omega.games.gr1 as gr1
     from vlib import bdd2smt, family, xref
     t0 = time.time()
     aut, params = family.build(shape, moore, plus_one)
-    if objective == 'streett':
-        z, _, _ = gr1.solve_streett_game(aut)
-    else:
-        zk, _, _ = gr1.solve_rabin_game(aut)
-        z = zk[-1]
+    def solve():
+        if objective == 'streett':
+            return gr1.solve_streett_game(aut)[0]
+        return gr1.solve_rabin_game(aut)[0][-1]
+    z = solve()
+    if resolve:
+        # history: the same Automaton is solved again after variable ownership was re-assigned in place
+        # (every variable now belongs to the component); the result must be the region of the *new* game
+        aut.varlist['sys'] = list(aut.varlist['env']) + list(aut.varlist['sys'])
+        aut.varlist['env'] = []
+        z = solve()
     t_real = time.time() - t0
     exp = bdd2smt.Exporter(aut.bdd)
     ex = family.Explicit(aut, exp)
@@ -106,7 +116,7 @@ def family_region(shape, moore, plus_one, objective='streett', state_idx=None):
     ref = game.streett(goals, holds) if objective == 'streett' else game.rabin(goals, holds)
     zt = ex.pred_table(z)
     t_build = time.time() - t0 - t_real
-    name0 = f'{objective} {shape} moore={moore} plus_one={plus_one}'
+    name0 = f'{objective} {shape}{" re-solved after ownership change" if resolve else ""} moore={moore} plus_one={plus_one}'
     sample = dict(shape=shape, moore=moore, plus_one=plus_one, constants=len(params),
                   games=f'2^{len(params)}', states=len(ex.S), region_bdd_nodes=len(z),
                   real_solver_s=round(t_real, 2), member_formula_env=None)
@@ -150,7 +160,7 @@ def family_region(shape, moore, plus_one, objective='streett', state_idx=None):
             continue
         m = sol.model()
         vals = family.model_params(m, params, exp.bits)
-        diffs = replay_member(shape, moore, plus_one, vals, objective)
+        diffs = replay_member(shape, moore, plus_one, vals, objective, resolve)
         if diffs:
             st, got, want = diffs[0]
             out.append(core.res(
@@ -161,7 +171,7 @@ def family_region(shape, moore, plus_one, objective='streett', state_idx=None):
                        f'{"winning" if got else "losing"}, explicit parity solver says '
                        f'{"winning" if want else "losing"} ({len(diffs)} state(s) differ)',
                 cex=dict(kind='member', shape=shape, moore=moore, plus_one=plus_one,
-                         values=vals, objective=objective)))
+                         values=vals, objective=objective, resolve=resolve)))
         else:
             out.append(core.res(name, 'inconclusive', queries={r: 1}, solver_s=dt, sample=sample,
                                 detail=f'counterexample member {_describe(vals, params)} did not '
@@ -231,7 +241,7 @@ def validate_reference(seed, n):
 
 def replay(payload):
     c = payload['cex']
-    diffs = replay_member(c['shape'], c['moore'], c['plus_one'], c['values'], c.get('objective', 'streett'))
+    diffs = replay_member(c['shape'], c['moore'], c['plus_one'], c['values'], c.get('objective', 'streett'), c.get('resolve', False))
     if diffs:
         return True, f'member of {c["shape"]} moore={c["moore"]} plus_one={c["plus_one"]}: {diffs[:2]}'
     return False, 'real solver agrees with the explicit solver on this member'
@@ -240,11 +250,11 @@ def replay(payload):
 def shapes_for(tier, objective='streett'):
     # (shape, back end, split per explicit state into separate tasks)
     if tier == 'quick':
-        r = [('B11a', 'cudd', 4), ('S11', 'cudd', 0), ('B02', 'cudd', 0), ('S11', 'autoref', 0)]
+        r = [('B11a', 'cudd', 4), ('S11', 'cudd', 0), ('S11h2', 'cudd', 0), ('S11g2', 'cudd', 0), ('B02', 'cudd', 0), ('S11', 'autoref', 0)]
         if objective == 'streett':
             r.append(('B02', 'autoref', 0))
         return r
-    return [('B11a', 'cudd', 4), ('B11b', 'cudd', 4), ('B11c21', 'cudd', 4), ('B11c12', 'cudd', 4),
+    return [('B11a', 'cudd', 4), ('S11h2', 'cudd', 0), ('S11g2', 'cudd', 0), ('B11b', 'cudd', 4), ('B11c21', 'cudd', 4), ('B11c12', 'cudd', 4),
             ('S11', 'cudd', 0), ('B02', 'cudd', 0), ('I11a', 'cudd', 8), ('I11n', 'cudd', 8),
             ('I11b', 'cudd', 8), ('B21', 'cudd', 8), ('B12', 'cudd', 8),
             ('S11', 'autoref', 0), ('B02', 'autoref', 0), ('B11a', 'autoref', 4)]
@@ -261,6 +271,11 @@ def run(tier, seed, t0, only=None, objective='streett', pid=PID):
                                   backend=be, timeout=6000,
                                   name=f'{be}:{objective}:{shape}:moore={moore}:plus_one={plus_one}'
                                        + ('' if part is None else f':state{part}')))
+    for shape in (['S11'] if tier == 'quick' else ['S11', 'S11h2', 'B11a']):
+        for moore, plus_one in MODES:
+            tasks.append(dict(mod='vlib.props.c01', fn='family_region',
+                              kw=dict(shape=shape, moore=moore, plus_one=plus_one, objective=objective, resolve=True),
+                              timeout=6000, name=f'cudd:{objective}:{shape}:re-solve:moore={moore}:plus_one={plus_one}'))
     nval = 40 if tier == 'quick' else 300
     for i in range(4):
         tasks.append(dict(mod='vlib.props.c01', fn='validate_reference',
